@@ -39,6 +39,31 @@ var c15ModeText = []string{"returned an error once", "returned an error from the
 
 var errInjected = errors.New("injected write failure")
 
+// error values of dynamic types that cannot be compared with == (an aggregate of errors, a struct with a list):
+// what destinations built on fan-out writers and validators return
+type errList []error
+
+func (e errList) Error() string { return fmt.Sprintf("%d injected write failures", len(e)) }
+
+type errDetail struct {
+	Op    string
+	Parts []string
+}
+
+func (e errDetail) Error() string { return "injected write failure in " + e.Op }
+
+// failure is the error this destination reports (its type depends on the window, so that every kind is met
+// at every position over a run)
+func (w *faultWriter) failure() error {
+	switch (w.k + w.mode) % 3 {
+	case 1:
+		return errList{errInjected, errInjected}
+	case 2:
+		return errDetail{Op: "write", Parts: []string{"a"}}
+	}
+	return errInjected
+}
+
 func (w *faultWriter) Write(p []byte) (int, error) {
 	w.calls++
 	hit := w.k > 0 && (w.calls == w.k || (w.calls > w.k && (w.mode == 1 || w.mode == 3)))
@@ -50,7 +75,7 @@ func (w *faultWriter) Write(p []byte) (int, error) {
 		return len(p), nil
 	}
 	if w.mode <= 1 {
-		return 0, errInjected
+		return 0, w.failure()
 	}
 	if w.mode == 6 {
 		// the error comes with a full count (the data went out, the connection then failed)
@@ -58,7 +83,7 @@ func (w *faultWriter) Write(p []byte) (int, error) {
 		if w.keep {
 			w.acc = append(w.acc, p...)
 		}
-		return len(p), errInjected
+		return len(p), w.failure()
 	}
 	n := len(p) - 1
 	switch w.mode {
